@@ -201,6 +201,8 @@ def parse_index(ix):
         return ix[1]
     if k == 'str':
         return 'x'
+    if k == 'huge':         # a legal advanced index whose result cannot be allocated
+        return np.broadcast_to(np.intp(0), (2 ** 48,))
     raise ValueError(ix)
 
 
